@@ -50,9 +50,18 @@ def material(rng, kind):
             m["dye"] = [((r * 61) % 2048) << 16 | (r % 4) << 27 | (1 << (r % 12)) | (rng.getrandbits(12) if r > 12 else 0) for r in range(32)]
     m["keys"] = [(rng.getrandbits(32), rng.getrandbits(32)) for _ in range(rng.randint(0, 4))]
     m["constants"] = [(rng.getrandbits(32), [rfloat(rng) for _ in range(rng.randint(1, 4))]) for _ in range(rng.randint(0, 4))]
-    if m["constants"] and rng.random() < 0.5:
-        # constants at shuffled offsets: the value list is laid out in another order than the records
-        rng.shuffle(m["constants"])
+    nc = len(m["constants"])
+    if nc >= 2 and rng.random() < 0.6:
+        # the value list is laid out in another order than the records, with gaps, and records may share a slice
+        m["const_order"] = rng.sample(range(nc), nc)
+        if rng.random() < 0.5:
+            m["const_gaps"] = {rng.randrange(nc): [rfloat(rng) for _ in range(rng.randint(1, 2))]}
+        if rng.random() < 0.4:
+            i, j = rng.sample(range(nc), 2)
+            if len(m["constants"][i][1]) <= len(m["constants"][j][1]):
+                m["const_share"] = {i: j}
+    if kind == "legacy" and rng.random() < 0.5:
+        m["explicit_dims"] = True
     m["samplers"] = [(rng.randrange(len(mtrlshpk.SAMPLER_IDS)), rng.getrandbits(32), rng.randrange(max(ntex, 1))) for _ in range(rng.randint(0, 4))]
     return m
 
@@ -102,7 +111,9 @@ def check(run):
         for kind in (None, "legacy", "dawntrail"):
             m = material(rng, kind)
             cases.append(Case([{"op": "assets.mtrl", "case": n, "bytes": list(mtrlshpk.mtrl(m))}],
-                              desc={"material": kind, "textures": len(m["textures"]), "constants": len(m["constants"]), "dye": m.get("dye") is not None}))
+                              desc={"material": kind, "textures": len(m["textures"]), "constants": len(m["constants"]), "dye": m.get("dye") is not None,
+                                    "explicit legacy dimensions": bool(m.get("explicit_dims")), "constants out of order": bool(m.get("const_order")),
+                                    "shared slice": bool(m.get("const_share"))}))
             n += 1
     for _ in range(120 if run.tier == "quick" else 1200):
         p, probe = package(rng)
@@ -116,8 +127,8 @@ def check(run):
                           nontrivial=any(lists)))
         n += 1
     run.rule = ("materials without table / with legacy 16-row / Dawntrail 32-row colour tables whose halves are pairwise distinct in every "
-                "component of every row, dye tables with every bit set once, 0..4 textures / keys / constants (1..4 floats, shuffled "
-                "offsets) / samplers; shader packages (DX9/DX11, 0..3 vertex and pixel shaders with 0..3 parameters per list, material "
+                "component of every row, dye tables with every bit set once, 0..4 textures / keys / constants (1..4 floats; value slices out of table order, with gaps, shared; legacy tables with and without "
+                "explicit 0x42 dimensions) / samplers; shader packages (DX9/DX11, 0..3 vertex and pixel shaders with 0..3 parameters per list, material "
                 "parameters with/without defaults, key tables, 1..4 nodes with 0..3 passes, aliases incl. one shadowed by a node) with every "
                 "selector of the table and an absent one probed; key lists of length 0..6 with extreme values; distinct by bytes")
     run.conform(cases, MODULE, CFG, shards=14, xmx="4g")
